@@ -105,12 +105,15 @@ Definition report_line (a : agg) (fill with_diff now_flag : bool) (today : cdate
 Definition flag (s : bytes) : bool := bytes_eqb s b!"1".
 
 (* klog report / total / print --with-totals with filter flags: FilterArgs.ApplyFilter comes first in all three *)
-Definition filtered_line (a : agg) (fill with_diff now_flag : bool) (today : cdate) (h m : Z) (q : filter_qry)
+Definition filtered_line (a : agg) (fill with_diff now_flag : bool) (today : cdate) (h m : Z) (oq : outcome filter_qry)
     (rs : list record) : bytes :=
-  let rs1 := filter_records q rs in
-  let secs := [ section b!"R" (show_report a) (report_cmd a fill with_diff now_flag today h m rs1);
-                section b!"T" (fun x => let '(t, s, d, n) := x in [dec t; dec s; dec d; dec n]) (total_cmd now_flag today h m rs1);
-                section b!"P" show_with_totals (with_totals rs1) ] in
+  (* each command computes the query from its own flags: a panic in ApplyFilter (a date flag at the end of the
+     calendar) is a panic of each of them *)
+  let with_filter {A} (f : list record -> outcome A) : outcome A := let* q := oq in f (filter_records q rs) in
+  let secs := [ section b!"R" (show_report a) (with_filter (report_cmd a fill with_diff now_flag today h m));
+                section b!"T" (fun x => let '(t, s, d, n) := x in [dec t; dec s; dec d; dec n])
+                        (with_filter (total_cmd now_flag today h m));
+                section b!"P" show_with_totals (with_filter with_totals) ] in
   words (show_status (fold_left worst (map fst secs) SOk) :: flat_map snd secs).
 
 (* `name` or `name:hex` (as Model/SuiteQuery.v) *)
@@ -165,11 +168,7 @@ Definition suite_report (cmd : bytes) (args : list bytes) : option bytes :=
           | Ok fa =>
             match agg_of_bytes ag, parse_text (arg_bytes s) with
             | Some a, Ok (Parsed rs _) =>
-              match apply_filter_args today fa with
-              | Ok q => filtered_line a (flag fill) (flag df) (flag now) today (parse_int h) (parse_int mi) q rs
-              | Err _ => b!"err"
-              | Crash _ => b!"crash"
-              end
+              filtered_line a (flag fill) (flag df) (flag now) today (parse_int h) (parse_int mi) (apply_filter_args today fa) rs
             | Some _, Ok (Failed _) => b!"invalid"
             | Some _, _ => b!"crash"
             | None, _ => b!"badarg"
